@@ -74,6 +74,10 @@ async fn write_best_seen_file(
         .write_all(value.to_string().as_bytes())
         .await?;
 
+    // write_all only hands the data over to a background write: wait until it is on the file,
+    // otherwise it can land after (or in the middle of) the next rewrite of this file
+    best_seen_file.flush().await?;
+
     Ok(())
 }
 
